@@ -141,10 +141,9 @@ macro_rules! impl_observer {
       #[inline]
       fn error(self, _: NotifyErr) {}
 
+      // only an item of the notifier ends the skipping, its completion doesn't
       #[inline]
-      fn complete(self) {
-        self.0.stop_skipping()
-      }
+      fn complete(self) {}
 
       // the notifier has nothing left to do once the main stream is finished
       #[inline]
